@@ -427,6 +427,29 @@ LEGAL = {
 STUTTER = {("Executable", "Executable"), ("Execution complete", "Execution complete")}
 
 
+def reopen_key(prefix, o):
+    """which response re-opened the order: the known mechanism is a FAILURE answer (request executed while the market is not OPEN)
+    to a cancel / replace, or the answer to an update (which re-opens whatever its outcome); anything else is a different defect"""
+    log = o["log"]
+    for i in range(1, len(log) - 1):
+        if log[i] in ("Execution complete",) and log[i + 1] == "Executable":
+            kind = next((x for x in reversed(log[:i]) if x in ("Cancelling", "Updating", "Replacing")), None)
+            if kind == "Updating":
+                continue
+            cr = o.get("cancel_resp") or []
+            if kind in ("Cancelling", "Replacing") and cr and all(x == "FAILURE" for x in cr[-1:]):
+                # the response that followed this completion: count the requests up to here
+                nreq = sum(1 for x in log[:i] if x in ("Cancelling", "Replacing"))
+                if len(cr) >= nreq and cr[nreq - 1] == "FAILURE":
+                    continue
+            if kind == "Replacing" and cr:
+                nreq = sum(1 for x in log[:i] if x in ("Cancelling", "Replacing"))
+                if len(cr) >= nreq and cr[nreq - 1] == "SUCCESS" and log[i - 1] == "Replacing":
+                    return prefix + "-replace-place-failure-reopens"
+            return prefix + "-reopened-by-other-response"
+    return prefix + "-reopened-after-complete"
+
+
 def c03(sc, io):
     res = []
     for o in io["final"]:
@@ -438,7 +461,7 @@ def c03(sc, io):
             if b == "Violation":
                 res.append(("C03-live-order-marked-violation", "order %s went %s -> Violation: a control refusing a cancel/update/replace marks the order resting at the exchange" % (o["o"], a), det))
             elif a in ("Execution complete", "Expired", "Violation"):
-                res.append(("C03-reopened-after-complete", "order %s went %s -> %s: a response to an in-flight request re-opened an order that had completed meanwhile" % (o["o"], a, b), det))
+                res.append((reopen_key("C03", o), "order %s went %s -> %s: a response to an in-flight request re-opened an order that had completed meanwhile (log %s, cancel responses %s, update responses %s)" % (o["o"], a, b, o["log"], o.get("cancel_resp"), o.get("update_resp")), det))
             else:
                 res.append(("C03-illegal-transition", "order %s went %s -> %s" % (o["o"], a, b), det))
     # finality, sampled at every strategy call
